@@ -318,10 +318,12 @@ func HandleSetFileInfo(cc *hotline.ClientConn, t *hotline.Transaction) (res []ho
 			if err != nil {
 				return nil
 			}
-			hlFile.Name, err = txtDecoder.String(string(fileNewName))
-			if err != nil {
-				return res
+			// fullNewFilePath is the new name resolved inside fileDir ("/" and ".." in the client's bytes cannot
+			// climb out of it); a new name that resolves to nothing is refused.
+			if fullNewFilePath == fileDir {
+				return cc.NewErrReply(t, "Cannot rename file "+string(fileName)+" because the new name is not valid.")
 			}
+			hlFile.Name = filepath.Base(fullNewFilePath)
 
 			err = hlFile.Move(fileDir)
 			if os.IsNotExist(err) {
